@@ -243,13 +243,13 @@ class Octree(GridObject):
 
             assert len(value) == 3, "Origin must be a list or numpy array of shape (3,)"
 
-            self.workspace.update_attribute(self, "attributes")
             self._centroids = None
 
             value = np.asarray(
                 tuple(value), dtype=[("x", float), ("y", float), ("z", float)]
             )
             self._origin = value
+            self.workspace.update_attribute(self, "attributes")
 
     @property
     def rotation(self) -> float:
